@@ -106,12 +106,12 @@ def evaluate(ctx, p, res, base, replay, truth_ir, via):
     """The C09 oracle on one finished run."""
     if via == "api" and res["exc"] is not None:
         # would the bare emitters fail the same way?  then it is a listed round-trip defect
-        directs = {k: direct_hop(k, truth_ir, DEF_NAME[k], p.method and k == "function") for k in p.files if k != p.truth} if truth_ir else {}
+        directs = {k: direct_hop(k, truth_ir, p.def_name[k], p.method and k == "function") for k in p.files if k != p.truth} if truth_ir else {}
         ctx.report_exception(res["exc"], dict(base, direct_emission_raises=sorted({v[1] for v in directs.values() if v[1]})), replay, stage="sync")
         return  # one root cause per run: what the targets look like after a failure is C20's subject
     if via == "cli" and res["rc"] != 0:
         last = (res["stderr"].strip().split("\n") or [""])[-1]
-        directs = {k: direct_hop(k, truth_ir, DEF_NAME[k], p.method and k == "function") for k in p.files if k != p.truth} if truth_ir else {}
+        directs = {k: direct_hop(k, truth_ir, p.def_name[k], p.method and k == "function") for k in p.files if k != p.truth} if truth_ir else {}
         ctx.report(dict(base, field="raises", stage="sync", exc=last.split(":")[0][:40], exc_in="cli", msg=last[:200],
                         direct_emission_raises=sorted({v[1] for v in directs.values() if v[1]})), replay)
         return
@@ -131,14 +131,14 @@ def evaluate(ctx, p, res, base, replay, truth_ir, via):
         if is_extra:
             ctx.event("second_files_of_truth_kind_checked")
         if problem:
-            _d, _dexc = direct_hop(kind, truth_ir, DEF_NAME[kind], p.method and kind == "function") if truth_ir else (None, None)
+            _d, _dexc = direct_hop(kind, truth_ir, p.def_name[kind], p.method and kind == "function") if truth_ir else (None, None)
             tb["direct_emission_raises"] = [_dexc] if _dexc else []
             ctx.report(dict(tb, field="target", tag=problem, expected="definition {} in {}".format(p.names[kind], os.path.basename(target_path)), observed=problem), replay)
             continue
         k2, opts = SYNC_OPTS[kind]
         tb.update(case_flags(feat))
         # (1) differential: the target must parse to what emit(truth) parses to
-        direct, dexc = direct_hop(kind, truth_ir, DEF_NAME[kind], p.method and kind == "function")
+        direct, dexc = direct_hop(kind, truth_ir, p.def_name[kind], p.method and kind == "function")
         if direct is not None:
             diff = ir_diff(direct, ir)
             ctx.event("targets_compared_with_direct_emission")
@@ -182,7 +182,7 @@ def one(ctx, cfg, rich, wild, via, tmproot, with_return=False, key=0):
             # every target must now agree with the NEW truth
             from ..syncsim import definition_src
             with open(p.files[p.truth], "w") as f:
-                f.write(definition_src(p.truth, p.stale_ir) + "\n")
+                f.write(definition_src(p.truth, p.stale_ir, name=p.def_name[p.truth]) + "\n")
             truth_ir2, problem2 = parse_target(p.truth, p.files[p.truth], p.names[p.truth])
             if truth_ir2 is not None:
                 p.pre = {k: ("after_first_sync" if k != p.truth else v) for k, v in p.pre.items()}
